@@ -513,7 +513,11 @@ func (i *Interp) placeMode(n *ast.Node, mode placeMode) *place {
 		return i.placeMode(n.C[0], mode)
 	case "id":
 		if mode == mStoreLast && strings.HasPrefix(string(n.S), "$") {
-			un("assignment to a $-variable")
+			// $index and $file are variables that the rule driver binds afresh for every
+			// element / value: a program may overwrite the current binding
+			if !(string(n.S) == "$index" && i.indexValid) && !(string(n.S) == "$file" && i.fileValid) {
+				un("assignment to a $-variable")
+			}
 		}
 		return &place{loc: i.variable(string(n.S))}
 	case "dollar":
@@ -709,10 +713,14 @@ func (i *Interp) materialize(p *place) *Loc {
 		ploc = par.loc
 	case par.missing:
 		ploc = i.materialize(par)
-		if p.key.K == KNum {
-			i.set(ploc, V{K: KArr, A: &Arr{}})
-		} else {
-			i.set(ploc, NewObj())
+		// (the parent may have come into being since the place was resolved: the right-hand
+		// side of this very assignment can create it, as in o.a.b = o.a.c = 1)
+		if ploc.V.K != KObj && ploc.V.K != KArr {
+			if p.key.K == KNum {
+				i.set(ploc, V{K: KArr, A: &Arr{}})
+			} else {
+				i.set(ploc, NewObj())
+			}
 		}
 	default:
 		if par.tmp.K == KNull {
